@@ -264,13 +264,20 @@ def _job(arg):
                         s = steps[0]
                         sem_recs.append({"id": gid, "b": list(enc) + [0] * (8 - len(enc)), "n": len(enc), "regs": regs, "mem": mem,
                                          "post": {"regs": s["regs"], "len": s["len"], "err": 1 if s["err"] else 0, "pw": "run" if s["power"].startswith("run") else "low"},
-                                         "fin": fin})
+                                         "fin": fin, "huge": 0, "nw": 0})
                     steps, fin, _ = core.fresh(regs, mem, hidden=hidden_state(rnd))
                     add(gid, kind, core.impl, "temps", _res(steps[0] if steps else None, fin), ref, rep)
                     for v in ("after-program", "after-program-same-address"):
                         h = history_program(en, hist_encs, rnd, at if v.endswith("address") else rnd.choice([0x6000, 0x2FFF0, 0x90000]))
                         steps, fin = core.after_history(h, regs, mem)
                         add(gid, kind, core.impl, v, _res(steps[0] if steps else None, fin), ref, rep)
+                    # a sibling encoding - the same bytes except the last one - executed at the SAME address on the same core just
+                    # before (a decode cache keyed by too few bytes, or by the address alone, would hand out the sibling)
+                    if len(enc) >= 2:
+                        sib = enc[:-1] + bytes([enc[-1] ^ rnd.choice([0x01, 0x10, 0x80, 0xFF])])
+                        sregs, smem = en.build_case(sib, st)
+                        steps, fin = core.after_history((sregs, smem, 1), regs, mem)
+                        add(gid, kind, core.impl, "after-sibling-at-same-address", _res(steps[0] if steps else None, fin), ref, rep)
                     if len(late) < 400:
                         late.append((gid, core, regs, mem, ref, rep))
             else:
